@@ -10,7 +10,8 @@ RunFailed(e) ==
   LET pen == e.arr_pending res == e.result IN
      (IF e.panicked THEN {"C08_NoPanic"} ELSE {})
   \cup (IF ~e.done \/ e.outcomes # 1 THEN {"C08_ExactlyOneResult"} ELSE {})
-  \cup (IF C08_OkIffAck(e.kind, e.sent, pen, res) THEN {} ELSE {"C08_OkIffAck"})
+  \* every reply of a run arrives before the requests expire, so arr_all is "what reached the writer before expiry"
+  \cup (IF C08_OkIffAck(e.kind, e.sent, e.arr_all, res) THEN {} ELSE {"C08_OkIffAck"})
   \cup (IF C08_ConcurrencyOnlyIfAnswered(e.kind, e.sent, pen, res) THEN {} ELSE {"C08_ConcurrencyOnlyIfAnswered"})
   \cup (IF C08_QueryErrorOtherwise(e.kind, e.sent, pen, res) THEN {} ELSE {"C08_QueryErrorOtherwise"})
   \cup (IF e.tokens_ok /\ ~e.tokenless_addressed THEN {} ELSE {"C08_OnlyTokenBearers"})
@@ -30,13 +31,16 @@ ConflictFailed(e) ==
      \cup (IF e.first_result # "ok" THEN {"C17_FirstUnaffected"} ELSE {})
      \cup (IF e.first_outcomes # 1 \/ e.second_outcomes # 1 THEN {"C17_ExactlyOneResult"} ELSE {})
      \cup (IF e.leak THEN {"C17_ReplacedQueryReleasesCallers"} ELSE {})
+     \* a second write that was accepted (identical item, or superseding with cas = in-flight seq) and reported Ok was sent to the
+     \* storing nodes: superseding replaces the in-flight write, it does not silently drop the new one
+     \cup (IF e.second_result = "ok" /\ ~e.second_written THEN {"C17_SupersedingWriteIsSent"} ELSE {})
 Init == l = 1
 Next == /\ l <= Len(Rec)
         /\ LET e == Rec[l]
                f == IF e.e = "run" THEN RunFailed(e) \cup MajorityFailed(e) ELSE ConflictFailed(e)
                conforms == e.e # "run" \/ e.result = Result(e.kind, e.sent, e.arr_all)
            IN IF f # {} THEN PrintT(<<"VIOL", ToJson([line |-> l, b |-> e.b, failed |-> f,
-                      early_exit_after_ack |-> (e.e = "run" /\ EarlyExitAfterAck(e.kind, e.sent, e.arr_pending, e.result)),
+                      early_exit_after_ack |-> (e.e = "run" /\ EarlyExitAfterAck(e.kind, e.sent, e.arr_all, e.result)),
                       conforms_to_model |-> conforms])>>)
               ELSE IF ~conforms THEN PrintT(<<"DRIFT", ToJson([line |-> l, b |-> e.b, observed |-> e.result, model |-> Result(e.kind, e.sent, e.arr_all)])>>)
               ELSE TRUE
